@@ -200,6 +200,21 @@ example :
     Ref.relative_to a b = some [0x2E,0x2E,0x2F,0x62,0x2F,0x63] ∧
     Ref.resolve [0x2E,0x2E,0x2F,0x62,0x2F,0x63] b = some a := by decide
 
+/-- … and through the shortcut (`s:a/b#f` relative to `s:a/./b` is `#f`) -/
+theorem roundtrip_same_document_rootless_partial (G : Grammar) (ok : Lemmas.Grammar.Ok G) (okp : Lemmas.Grammar.OkPath G)
+    (oka : Lemmas.Grammar.OkAuth G) (we : Lemmas.Grammar.OkWE G) (a b : Text)
+    (ha : RE.Matches G.full a) (hb : RE.Matches G.full b)
+    (hsch : (split a).scheme = (split b).scheme)
+    (haa : (split a).authority = none) (hab : (split b).authority = none)
+    (hpa : isAbs (split a).path = false) (hpb : isAbs (split b).path = false)
+    (hhA : ((nsegs (split a).path).head? == some [cDot, cDot]) = false)
+    (hhB : ((nsegs (Path.parent_or_empty (split b).path)).head? == some [cDot, cDot]) = false)
+    (hne : nsegs (split a).path ≠ [])
+    (hcls : (!(Lemmas.remainder a b).2.2 && (Lemmas.remainder a b).1.head? == some []) = false)
+    (hsd : Lemmas.sdCond a b = true) :
+    ∃ r t, Ref.relative_to a b = some r ∧ Ref.resolve r b = some t ∧ key t = key a :=
+  Lemmas.relative_roundtrip_samedoc_rootless G ok okp oka we a b ha hb hsch haa hab hpa hpb hhA hhB hne hcls hsd
+
 /-- **the round trip when the target is the root** and the base lies below it (`https://crates.io/`
 relative to `https://crates.io/crates/iref` is `..`): the reference is `..` repeated -/
 theorem roundtrip_root_partial (G : Grammar) (ok : Lemmas.Grammar.Ok G) (okp : Lemmas.Grammar.OkPath G)
@@ -478,17 +493,24 @@ theorem roundtrip_classified (G : Grammar) (ok : Lemmas.Grammar.Ok G) (okp : Lem
       obtain ⟨⟨⟨haa, hab⟩, hpa⟩, hpb⟩ := hR
       by_cases hbad : ((nsegs (split a).path).head? == some [cDot, cDot]
           || (nsegs (Path.parent_or_empty (split b).path)).head? == some [cDot, cDot]
-          || nsegs (split a).path == [] || Model.skipEmpty a b
-          || (nsegs (split a).path).head? == some []
-          || (nsegs (Path.parent_or_empty (split b).path)).head? == some []
-          || Lemmas.sdCond a b) = true
+          || nsegs (split a).path == [] || Model.skipEmpty a b) = true
       · rw [if_pos hbad] at hc; exact absurd hc (by decide)
       · rw [if_neg hbad] at hc
         have hbad' := Bool.eq_false_iff.mpr hbad
         simp only [Bool.or_eq_false_iff] at hbad'
-        obtain ⟨⟨⟨⟨⟨⟨h1, h2⟩, h3⟩, h4⟩, h5⟩, h6⟩, h7⟩ := hbad'
-        exact roundtrip_on_class_rootless_partial G ok okp oka we a b ha hb hsch haa hab hpa hpb h1 h2
-          (by simpa using h3) h4 ⟨by simpa using h5, by simpa using h6⟩ h7
+        obtain ⟨⟨⟨h1, h2⟩, h3⟩, h4⟩ := hbad'
+        by_cases hsd : Lemmas.sdCond a b = true
+        · exact roundtrip_same_document_rootless_partial G ok okp oka we a b ha hb hsch haa hab hpa hpb h1 h2
+            (by simpa using h3) h4 hsd
+        · have h7 : Lemmas.sdCond a b = false := Bool.eq_false_iff.mpr hsd
+          simp only [h7, Bool.false_eq_true, if_false] at hc
+          by_cases hhd : ((nsegs (split a).path).head? == some []
+              || (nsegs (Path.parent_or_empty (split b).path)).head? == some []) = true
+          · rw [if_pos hhd] at hc; exact absurd hc (by decide)
+          · have hhd' := Bool.eq_false_iff.mpr hhd
+            simp only [Bool.or_eq_false_iff] at hhd'
+            exact roundtrip_on_class_rootless_partial G ok okp oka we a b ha hb hsch haa hab hpa hpb h1 h2
+              (by simpa using h3) h4 ⟨by simpa using hhd'.1, by simpa using hhd'.2⟩ h7
     · simp only [Bool.eq_false_iff.mpr hR, Bool.false_eq_true, if_false] at hc
       by_cases hO : ((split a).authority.map authKey != (split b).authority.map authKey || !isAbs (split a).path
           || !(isAbs (split b).path || ((split b).path.isEmpty && (split b).authority.isSome))) = true
